@@ -239,7 +239,12 @@ func buildWith(g *gGrammar, k int, extra ...participle.Option) (b *built, err er
 	for _, u := range unames {
 		var members []any
 		for _, m := range g.Unions[u] {
-			members = append(members, reflect.New(types[m]).Interface())
+			if u == "U1" || u == "U3" {
+				// members registered BY VALUE (Union[T](Member{}) instead of Union[T](&Member{}))
+				members = append(members, reflect.New(types[m]).Elem().Interface())
+			} else {
+				members = append(members, reflect.New(types[m]).Interface())
+			}
 		}
 		switch u {
 		case "U0":
